@@ -144,7 +144,7 @@ def step(d, n_ops):
                     del it
                 else:
                     v.resolver.resolve(pick(["#/definitions/a", "sub/b.json", "http://nowhere.test/x.json", "#/definitions/nope",
-                                             "http://h.test/doc.json#/definitions/m", "#"], keys[i]))
+                                             "http://h.test/doc.json#/definitions/m", "#", "#/properties/f"], keys[i]))
             except RefResolutionError:
                 pass
             except Exception as e:
